@@ -166,6 +166,7 @@ type Ctx struct {
 	True   *Term
 	False  *Term
 	fresh  map[string]int
+	hasInt bool
 }
 
 func NewCtx() *Ctx {
@@ -197,6 +198,9 @@ func (c *Ctx) key(t *Term) string {
 }
 
 func (c *Ctx) mk(t *Term) *Term {
+	if t.sort.K == SInt {
+		c.hasInt = true
+	}
 	k := c.key(t)
 	if x, ok := c.tab[k]; ok {
 		return x
@@ -493,6 +497,37 @@ func (c *Ctx) bvbin(op Op, a, b *Term) *Term {
 		}
 		if ok {
 			return c.BVConst(r, w)
+		}
+	}
+	// division / remainder by a constant power of two: exact shift identities
+	// (keeps bit-blasting cheap; bvsdiv/bvsrem circuits are very expensive)
+	if b.op == OConst && b.cv != 0 && b.cv&(b.cv-1) == 0 && w > 1 {
+		k := 0
+		for (uint64(1) << uint(k)) != b.cv {
+			k++
+		}
+		kc := c.BVConst(uint64(k), w)
+		switch op {
+		case OBvUDiv:
+			return c.bvbin(OBvLShr, a, kc)
+		case OBvURem:
+			return c.bvbin(OBvAnd, a, c.BVConst(b.cv-1, w))
+		case OBvSDiv, OBvSRem:
+			if k == 0 {
+				if op == OBvSDiv {
+					return a
+				}
+				return c.BVConst(0, w)
+			}
+			if k < w-1 {
+				sign := c.bvbin(OBvAShr, a, c.BVConst(uint64(w-1), w))
+				bias := c.bvbin(OBvLShr, sign, c.BVConst(uint64(w-k), w))
+				q := c.bvbin(OBvAShr, c.bvbin(OBvAdd, a, bias), kc)
+				if op == OBvSDiv {
+					return q
+				}
+				return c.bvbin(OBvSub, a, c.bvbin(OBvShl, q, kc))
+			}
 		}
 	}
 	// identities
